@@ -841,6 +841,20 @@ class World:
                     return staticmethod(v)
                 return v
             return self.classes[k].__dict__[m]
+        if kind == "shared":
+            # one plain (undecorated) function used as the implementation of a member in several classes
+            pool = self.__dict__.setdefault("shared_impls", {})
+            raw = pool.get(ms["impl"])
+            if raw is None:
+
+                def raw(self, t):
+                    return run.body(self)
+
+                raw.__name__ = "impl%s" % ms["impl"]
+                raw.__qualname__ = "impl%s" % ms["impl"]
+                run.idmap[id(raw)] = "impl%s" % ms["impl"]
+                pool[ms["impl"]] = raw
+            return raw
         if kind == "prop":
 
             def fget(self):
